@@ -143,6 +143,23 @@ theorem C19_no_spurious_refusal (G : Nat) (r : RateLimiter) (t qps cNew cT cG : 
   unfold RateLimiter.checkLimit
   simp [hb, hg, h1, h2]
 
+/-- **The budget comes back**: whatever the bucket's state (empty included), once the clock has
+    advanced far enough for the refill to be worth one request (`(now − last) · rate ≥ G`, e.g. one
+    second at any rate ≥ 1) the next call is admitted — the limiter throttles, it does not lock a
+    tenant out.  (`cap ≥ 1`: the configuration validator refuses a zero rate.) -/
+theorem C19_admitted_after_wait (G : Nat) (b : Bucket) (now : Nat) (hcap : 1 ≤ b.cap)
+    (hlast : b.last < now) (hwait : G ≤ (now - b.last) * b.rate) :
+    (b.tryConsume G now).2 = true := by
+  have hcapG : G ≤ b.cap * G := Nat.le_mul_of_pos_left G hcap
+  have ht : (b.refill G now).tokens ≥ G := by
+    unfold refill
+    rw [if_pos hlast]
+    exact Nat.le_min.mpr ⟨hcapG, Nat.le_trans hwait (Nat.le_add_left _ _)⟩
+  unfold tryConsume; rw [if_pos ht]
+
+/-- the hypotheses are satisfiable: an empty bucket of rate 5, one tick later (G = 1000 ms) -/
+example : ((⟨5, 5, 0, 10⟩ : Bucket).tryConsume 1000 210).2 = true := by decide
+
 /-! ### the tenant bucket under every interleaving -/
 
 /-- one whole `check_limit` as the tenant bucket sees it now that it stays locked until the global
